@@ -1,7 +1,7 @@
 import RgVerif.Lemmas.WalkEq
 /-
 C06: the serial walker model computes the reachability spec, provided no reachable directory is
-both off the root's device and rejected by an entry test (`hazard… = false`).
+both off the root's device and rejected by an entry test) — since the repair of F25: unconditionally.
 -/
 namespace RgVerif.Walk
 
@@ -26,10 +26,9 @@ theorem pushed_eq (cfg : Cfg) (rd : Option Nat) (dev : Nat) (h : RdOk cfg rd) :
   · rw [h hs]; simp [devOk]
   · simp
 
-/-- The serial jump function agrees with the spec's on hazard-free directories. -/
-def JOk (cfg : Cfg) (js : SerContents) (jr : Contents)
-    (jh : List Anc → Nat → Path → Option Nat → List Node → Bool) : Prop :=
-  ∀ sp ig depth p rd kids, SpOk cfg sp ig → RdOk cfg rd → jh ig depth p rd kids = false →
+/-- The serial jump function agrees with the spec's. -/
+def JOk (cfg : Cfg) (js : SerContents) (jr : Contents) : Prop :=
+  ∀ sp ig depth p rd kids, SpOk cfg sp ig → RdOk cfg rd →
     js sp ig depth p rd kids = (jr ig depth p rd kids, ig)
 
 theorem spOk_cons {cfg : Cfg} {sp : List Nat} {ig : List Anc} (h : SpOk cfg sp ig) (ino : Nat)
@@ -63,44 +62,36 @@ theorem followEntry_sp (cfg : Cfg) (forest : List Node) (sp : List Nat) (ig : Li
 
 mutual
 theorem serEntry_eq (cfg : Cfg) (forest : List Node) (js : SerContents) (jr : Contents)
-    (jh : List Anc → Nat → Path → Option Nat → List Node → Bool) (hj : JOk cfg js jr jh)
+    (hj : JOk cfg js jr)
     (rd : Option Nat) (hrd : RdOk cfg rd) (sp : List Nat) (ig : List Anc) (hsp : SpOk cfg sp ig)
     (depth : Nat) (pp : Path) :
-    (k : Node) → hazardEntry cfg forest jh rd ig depth pp k = false →
+    (k : Node) →
       serEntry cfg forest js rd sp ig depth pp k =
         ⟨reachEntry cfg forest jr rd ig depth pp k, false, ig⟩
   | .file name size => by
-    intro _
     unfold serEntry reachEntry
     rw [wdHandle_ok cfg forest sp rd _ (.file name size) (.file size)
       (followEntry_nolink _ _ _ _ _ rfl) hrd]
     simp only [Node.name, skipEntry_eq]
     cases accepted cfg ig (pp ++ [name]) name (View.file size) <;> simp
   | .dir name ino dev ign kids => by
-    intro hz
-    unfold hazardEntry at hz
     unfold serEntry reachEntry
     rw [wdHandle_ok cfg forest sp rd _ (.dir name ino dev ign kids) (.dir ⟨ino, dev, ign, kids⟩ false)
       (followEntry_nolink _ _ _ _ _ rfl) hrd]
     simp only [skipEntry_eq]
     cases hacc : accepted cfg ig (pp ++ [name]) name (.dir ⟨ino, dev, ign, kids⟩ false)
-    · simp only [hacc] at hz
-      simp_all
-    · simp only [hacc, if_true] at hz
-      simp only [Bool.not_true, Bool.false_eq_true, if_false, if_true]
+    · simp_all
+    · simp only [Bool.not_true, Bool.false_eq_true, if_false, if_true]
       cases hd : (devOk rd dev && depthOk cfg (depth + 1))
       · simp
-      · simp only [hd, Bool.true_and] at hz
-        have ih := serKids_eq cfg forest js jr jh hj rd hrd
+      · have ih := serKids_eq cfg forest js jr hj rd hrd
           (if cfg.followLinks then ino :: sp else sp) ((ino, ign) :: ig) (spOk_cons hsp ino ign)
-          (depth + 1) (pp ++ [name]) kids hz
+          (depth + 1) (pp ++ [name]) kids
         simp [ih]
   | .link name len tgt => by
-    intro hz
-    unfold hazardEntry at hz
     unfold serEntry reachEntry
     by_cases hf : cfg.followLinks = true
-    · simp only [hf, if_true] at hz ⊢
+    · simp only [hf, if_true]
       cases hr : resolve forest tgt with
       | broken =>
         rw [wdHandle_err cfg forest sp rd _ (.link name len tgt) (.broken (pp ++ [name]))
@@ -121,7 +112,6 @@ theorem serEntry_eq (cfg : Cfg) (forest : List Node) (js : SerContents) (jr : Co
       | dir d via =>
         have hvia := resolve_dir_via hr
         subst hvia
-        simp only [hr] at hz
         by_cases hl : inAnc ig d.ino = true
         · rw [wdHandle_err cfg forest sp rd _ (.link name len tgt) (.loop (pp ++ [name]))
             (by rw [followEntry_sp cfg forest sp ig _ _ hsp,
@@ -132,18 +122,14 @@ theorem serEntry_eq (cfg : Cfg) (forest : List Node) (js : SerContents) (jr : Co
             (by rw [followEntry_sp cfg forest sp ig _ _ hsp,
                   followEntry_link_dir cfg forest ig _ name len tgt d true hf hr]
                 simp [hl, Node.name]) hrd]
-          simp only [hl, Bool.false_eq_true, if_false] at hz
           simp only [Node.name, skipEntry_eq, hl]
           cases hacc : accepted cfg ig (pp ++ [name]) name (.dir d true)
-          · simp only [hacc] at hz
-            simp_all
-          · simp only [hacc, if_true] at hz
-            simp only [Bool.not_true, Bool.false_eq_true, if_false, if_true]
+          · simp_all
+          · simp only [Bool.not_true, Bool.false_eq_true, if_false, if_true]
             cases hd : (devOk rd d.dev && depthOk cfg (depth + 1))
             · simp
-            · simp only [hd, Bool.true_and] at hz
-              have := hj (if cfg.followLinks then d.ino :: sp else sp) ((d.ino, d.ign) :: ig)
-                (depth + 1) (pp ++ [name]) rd d.kids (spOk_cons hsp d.ino d.ign) hrd hz
+            · have := hj (if cfg.followLinks then d.ino :: sp else sp) ((d.ino, d.ign) :: ig)
+                (depth + 1) (pp ++ [name]) rd d.kids (spOk_cons hsp d.ino d.ign) hrd
               simp only [hf, if_true] at this
               simp [this]
     · have hf' : cfg.followLinks = false := by simpa using hf
@@ -152,64 +138,51 @@ theorem serEntry_eq (cfg : Cfg) (forest : List Node) (js : SerContents) (jr : Co
       simp only [Node.name, skipEntry_eq, hf', Bool.false_eq_true, if_false]
       cases accepted cfg ig (pp ++ [name]) name (View.symlink len) <;> simp
 theorem serKids_eq (cfg : Cfg) (forest : List Node) (js : SerContents) (jr : Contents)
-    (jh : List Anc → Nat → Path → Option Nat → List Node → Bool) (hj : JOk cfg js jr jh)
+    (hj : JOk cfg js jr)
     (rd : Option Nat) (hrd : RdOk cfg rd) (sp : List Nat) (ig : List Anc) (hsp : SpOk cfg sp ig)
     (depth : Nat) (pp : Path) :
-    (ks : List Node) → hazardKids cfg forest jh rd ig depth pp ks = false →
+    (ks : List Node) →
       serKids cfg forest js rd sp ig depth pp ks = (reachKids cfg forest jr rd ig depth pp ks, ig)
-  | [] => by intro _; simp [serKids, reachKids]
+  | [] => by simp [serKids, reachKids]
   | k :: ks => by
-    intro hz
-    unfold hazardKids at hz
-    simp only [Bool.or_eq_false_iff] at hz
     unfold serKids reachKids
-    rw [serEntry_eq cfg forest js jr jh hj rd hrd sp ig hsp depth pp k hz.1]
+    rw [serEntry_eq cfg forest js jr hj rd hrd sp ig hsp depth pp k]
     simp only [Bool.false_eq_true, if_false]
-    rw [serKids_eq cfg forest js jr jh hj rd hrd sp ig hsp depth pp ks hz.2]
+    rw [serKids_eq cfg forest js jr hj rd hrd sp ig hsp depth pp ks]
 end
 
 theorem serContents_ok (cfg : Cfg) (forest : List Node) :
-    ∀ f, JOk cfg (serContents cfg forest f) (reachContents cfg forest f) (hazardContents cfg forest f) := by
+    ∀ f, JOk cfg (serContents cfg forest f) (reachContents cfg forest f) := by
   intro f
   induction f with
-  | zero => intro sp ig depth p rd kids _ _ _; rfl
+  | zero => intro sp ig depth p rd kids _ _; rfl
   | succ f ih =>
-    intro sp ig depth p rd kids hsp hrd hz
-    simp only [serContents, reachContents, hazardContents] at hz ⊢
-    exact serKids_eq cfg forest _ _ _ ih rd hrd sp ig hsp depth p kids hz
+    intro sp ig depth p rd kids hsp hrd
+    simp only [serContents, reachContents]
+    exact serKids_eq cfg forest _ _ ih rd hrd sp ig hsp depth p kids
 
-theorem serRoot_eq (cfg : Cfg) (forest : List Node) (fuel : Nat) (r : Node)
-    (hz : hazardRoot cfg forest fuel r = false) :
+theorem serRoot_eq (cfg : Cfg) (forest : List Node) (fuel : Nat) (r : Node) :
     serRoot cfg forest fuel r = reachRoot cfg forest fuel r := by
-  unfold hazardRoot at hz
   unfold serRoot reachRoot
   cases hs : stat forest r with
   | broken => rfl
   | file s => rfl
   | symlink l => rfl
   | dir d via =>
-    simp only [hs] at hz
     simp only []
     cases hd : depthOk cfg 0
     · simp
-    · simp only [hd, Bool.true_and] at hz
-      have := serContents_ok cfg forest fuel (if cfg.followLinks then [d.ino] else [])
+    · have := serContents_ok cfg forest fuel (if cfg.followLinks then [d.ino] else [])
         [(d.ino, d.ign)] 0 [r.name] (if cfg.sameFs then some d.dev else none) d.kids
-        (by intro hf; simp [hf]) (by intro hs; simp [hs]) hz
+        (by intro hf; simp [hf]) (by intro hs; simp [hs])
       simp [this]
 
-/-- The serial walker reports exactly the reachable entries (same order even) on hazard-free inputs. -/
-theorem serial_eq (cfg : Cfg) (forest : List Node) (fuel : Nat) (roots : List Node)
-    (hz : hazardFree cfg forest fuel roots = true) :
+/-- The serial walker reports exactly the reachable entries (same order even). -/
+theorem serial_eq (cfg : Cfg) (forest : List Node) (fuel : Nat) (roots : List Node) :
     serial cfg forest fuel roots = reach cfg forest fuel roots := by
-  unfold hazardFree at hz
-  simp only [Bool.not_eq_eq_eq_not, Bool.not_true, List.any_eq_false] at hz
   unfold serial reach
-  induction roots with
-  | nil => rfl
-  | cons r rs ih =>
-    simp only [List.flatMap_cons]
-    rw [serRoot_eq cfg forest fuel r (by simpa using hz r (by simp)),
-      ih (fun x hx => hz x (by simp [hx]))]
+  congr 1
+  funext r
+  exact serRoot_eq cfg forest fuel r
 
 end RgVerif.Walk
